@@ -94,7 +94,10 @@ var FloatLadder = func() []FloatVal {
 // String pool (closed under strings.ToLower; all entries distinct). 1-based
 // indices in traces.
 
-var StrPool = []string{"", "a", "A", "ab", "aB", "AB", "abc", "ABC", "b", "B", "ba", "é", "É", "éa", "z", "Z", "~"}
+var StrPool = []string{"", "a", "A", "ab", "aB", "AB", "abc", "ABC", "b", "B", "ba", "é", "É", "éa", "z", "Z", "~", "a b", "b ab"}
+
+// Two string arrays that read alike when their elements are joined by blanks: ["a", "b ab"] and ["a b", "ab"].
+var AlikeArrays = [2][]string{{"a", "b ab"}, {"a b", "ab"}}
 
 func init() {
 	seen := map[string]bool{}
